@@ -43,4 +43,11 @@ CHECKS.update({
         "technique": "symbolic execution (CrossHair + z3) of the real plugin hooks over symbolic flag/environment bits against an executable model of the documented gate",
     },
 })
+CHECKS.update({
+    "C07": {
+        "text": "The outcome of a test is produced by the real autouse fixture generator snapshot_check around the real test body after the real pytest_configure; a subject snapshot of each of the five operations (empty or not) is placed at each of three positions between two == snapshots, all 8 values and the flag bits create/fix/trim/update/review(/report) symbolic; the solver confirms on every path, in both directions, that the outcome is not 'passed' exactly when some executed snapshot is missing or fails against the value in the source.",
+        "note": "Bound: 3 snapshots per test, subject evaluated at most twice. pytest's mapping of a failing fixture teardown to a non-zero exit status is validated by 8 fixed projects in a real pytest process (contract validation, labelled, not solver coverage). One defect found here was repaired (fix: commit fe1922b).",
+        "technique": "symbolic execution (CrossHair + z3) of the real fixture + value classes over symbolic values and flag bits; biconditional oracle per path",
+    },
+})
 NOT_APPLICABLE = {}
